@@ -150,13 +150,10 @@ func c02oracle(c c02case) *c02failure {
 			}
 			nw++
 		}
-		_ = total
-		if nw >= 2 && maxW-minW > 1 {
-			// known finding F-TIE-SPLIT: every merged level gives its odd chip to the same first winner, so the
-			// shares of one pot can differ by up to the number of its levels (never more)
-			known := len(p.Levels) >= 2 && maxW-minW <= int64(len(p.Levels))
-			return &c02failure{"pot-tie-split", fmt.Sprintf("pot %d (level %d, %d merged levels): tied winners get %d and %d", j, p.Level, len(p.Levels), maxW, minW), known}
-		}
+		_, _, _, _ = total, minW, maxW, nw
+		// (The reported per-pot Withdraw figures are not compared: Update lists a winner only when it takes out
+		// more than its own stake in a level, so they are not the shares. Shares are checked below on what every
+		// player really takes out.)
 	}
 	// every tied winner's share of a pot is floor(T/k) or ceil(T/k): checked on the total each player takes out
 	// (its change plus what it put in), which is observable for every player whether or not it is listed as a winner
